@@ -259,7 +259,7 @@ func RunAsync(c AsyncCase, yield func()) *AsyncResult {
 		ctx.StopAll()
 		// the stack has no join: wait until the scheduler's own goroutines are gone so that nothing of this run touches the
 		// process wide singletons (user manager, event system) that the next run resets
-		if left := waitSchedulerGone(15 * time.Second); left != "" {
+		if left := waitSchedulerGone(budget(15 * time.Second)); left != "" {
 			res.timedOut("goroutines of the scheduler still run 15s after the services were stopped")
 		}
 	}()
@@ -356,7 +356,7 @@ func RunAsync(c AsyncCase, yield func()) *AsyncResult {
 	go func() { wg.Wait(); close(done) }()
 	select {
 	case <-done:
-	case <-time.After(90 * time.Second):
+	case <-time.After(budget(90 * time.Second)):
 		res.timedOut("a client request did not return within 90s")
 		return res
 	}
@@ -380,7 +380,7 @@ func RunAsync(c AsyncCase, yield func()) *AsyncResult {
 		_ = ctx.RMProxy.UpdateApplication(&si.ApplicationRequest{RmID: RmID, New: []*si.AddApplicationRequest{{ApplicationID: appID, QueueName: "root.nosuchparent.nosuchqueue", PartitionName: "default",
 			Ugi: &si.UserGroupInformation{User: "sentinel"}, Tags: map[string]string{}}}})
 		_ = AsyncOp{Kind: "addnode", Node: nodeID, Res: Res{}}.send(ctx.RMProxy)
-		deadline := time.Now().Add(120 * time.Second)
+		deadline := time.Now().Add(budget(120 * time.Second))
 		for time.Now().Before(deadline) {
 			_, a := shim.acks.Load(appID)
 			_, n := shim.acks.Load(nodeID)
@@ -405,7 +405,7 @@ func RunAsync(c AsyncCase, yield func()) *AsyncResult {
 		}
 		var last string
 		stable := 0
-		deadline := time.Now().Add(60 * time.Second)
+		deadline := time.Now().Add(budget(60 * time.Second))
 		for time.Now().Before(deadline) {
 			time.Sleep(30 * time.Millisecond)
 			if len(shim.confirmCh) > 0 {
@@ -613,6 +613,14 @@ func sameFrames(a, b string) bool {
 		}
 	}
 	return true
+}
+
+// budget scales a time budget: the thorough tier runs a dozen race instrumented processes next to each other
+func budget(d time.Duration) time.Duration {
+	if Thorough() {
+		return 4 * d
+	}
+	return d
 }
 
 // timedOut turns a time budget that ran out into a verdict or an infrastructure problem.
